@@ -389,6 +389,11 @@ def enum(tier):
                     blt = {b for c in classes for b in c[0] if not isinstance(b, int)}
                     if len(blt) == 1 and any(c[1] != 'none' for c in classes):
                         out.append((classes, SHADOWING[blt.pop()]))
+        if tier == 'quick':
+            # three classes with `object` spelled out: a mixin further right overriding what every class inherits from object
+            for classes in hierarchies(3, ('none', 'method'), ('none',), 2, ('object',)):
+                if any('object' in c[0] for c in classes) and any(c[1] != 'none' for c in classes):
+                    out.append((classes, '__eq__'))
         _ENUM[tier] = out
     return _ENUM[tier]
 
